@@ -7,8 +7,14 @@ stable = set(n.split("::", 2)[2] if n.startswith("rws::bin/rws::") else n for n 
 stable = set(n.replace("rws::bin/rws::", "") for n in base["stable_pass"])
 p = subprocess.run("cargo test --workspace --no-fail-fast --offline 2>&1", shell=True, cwd=repo, capture_output=True, text=True)
 res = {}
-for m in re.finditer(r"^test (\S+) \.\.\. (\w+)", p.stdout, re.M):
-    res[m.group(1)] = m.group(2)
+# output of tests that print from spawned threads can interleave with the result word: take the names from the
+# "test NAME ..." lines and the failures from the final "failures:" list
+for m in re.finditer(r"^test (\S+) \.\.\. ?(\w*)", p.stdout, re.M):
+    res[m.group(1)] = "ok" if m.group(2) != "FAILED" else "FAILED"
+fl = re.search(r"^failures:\n((?:    \S+\n)+)\ntest result", p.stdout, re.M)
+if fl:
+    for n in fl.group(1).split():
+        res[n] = "FAILED"
 missing = sorted(n for n in stable if res.get(n) != "ok")
 print("tests run:", len(res), "ok:", sum(1 for v in res.values() if v == "ok"), "stable expected:", len(stable), "stable not ok:", len(missing))
 for n in missing[:40]: print("  NOT OK:", n, res.get(n))
